@@ -253,9 +253,10 @@ func system(tokens []Token, _ string, out *csDescriptors) error {
 	switch keyword := getKeyword(tokens[0]); keyword {
 	case "extends":
 		if len(tokens) == 2 {
-			secondKeyword := getKeyword(tokens[1])
-			if secondKeyword != "" {
-				out.System = counters.CounterStyleSystem{Extends: keyword, System: secondKeyword, Number: 0}
+			// counter style names are case-sensitive
+			name := getCustomIdent(tokens[1])
+			if name != "" {
+				out.System = counters.CounterStyleSystem{Extends: keyword, System: name, Number: 0}
 				return nil
 			}
 		}
